@@ -130,7 +130,7 @@ class PositionHlCommander:
         """
         if self._is_flying:
             landing_height = self._landing_height(landing_height)
-            duration_s = (self._z - landing_height) / self._velocity(velocity)
+            duration_s = abs(self._z - landing_height) / self._velocity(velocity)
             self._hl_commander.land(landing_height, duration_s)
             time.sleep(duration_s)
             self._z = landing_height
